@@ -33,6 +33,16 @@ type MsgSpec struct {
 
 // SplitFrags draws a fragmentation plan for n wire bytes.
 func SplitFrags(t *simrt.Tape, n int) []int {
+	if t.Pct(3) {
+		// a storm of empty fragments: a first part, 100..180 empty continuation
+		// frames, the rest (legal, and more than any retry limit of a buffered reader)
+		x := t.Draw(n + 1)
+		out := []int{x}
+		for i := 100 + t.Draw(81); i > 0; i-- {
+			out = append(out, 0)
+		}
+		return append(out, n-x)
+	}
 	k := t.Weighted(5, 3, 2, 1, 1) // 0 => single frame
 	if k == 0 {
 		return []int{n}
